@@ -243,7 +243,9 @@ def check_grid(case, ctx):
 def profile_cases(draw):
     p1 = [draw(gen.nice_or_free(-100, 100)), draw(gen.nice_or_free(-100, 100))]
     p2 = [draw(gen.nice_or_free(-100, 100)), draw(gen.nice_or_free(-100, 100))]
-    shape_kind = draw(st.sampled_from(["free", "free", "free", "same", "horizontal", "vertical"]))
+    shape_kind = draw(st.sampled_from(["free", "free", "free", "same", "horizontal", "vertical", "tiny"]))
+    if shape_kind == "tiny":
+        p2 = [p1[0] + draw(st.sampled_from([1e-9, -3e-10, 2.5e-11])), p1[1] + draw(st.sampled_from([1e-9, 0.0, -7e-10]))]
     if shape_kind == "same":
         p2 = list(p1)
     elif shape_kind == "horizontal":
